@@ -99,6 +99,8 @@ AddFails(ev, s) ==
            ELSE Bad(ev.ret = nw, "C12", "returned width is not the width of the stored sum")
                 \cup Bad(nw <= MaxLen(fam), "C12", "grow form exceeded the family maximum length")
                 \cup Bad(SubSeq(post, off + 1, off + nw) = SEnc(fam, sum), "C12", "stored bytes are not old+amount")
+                \cup Bad(fam # "tagged" \/ SubSeq(post, off + 1, off + nw) = SEnc(fam, sum), "C04",
+                         "an in-place add left bytes that are not the documented encoding of the stored value")
                 \cup Bad(same(1, off) /\ same(off + nw + 1, Len(pre)), "C12",
                          "add modified a byte outside the stored varint")
                 \cup Bad(grow \/ same(off + w + 1, Len(pre)), "C12",
